@@ -13,7 +13,8 @@ import json
 for l in open('seeded/detections.jsonl'):
     if l.strip():
         d=json.loads(l)
-        if d['id']=='$id': print(d['caught_by'][0])")
+        if d['id']=='$id': print(d['caught_by'][0] if d['caught_by'] else '-')")
+  if [ "$prop" = "-" ]; then echo "$id: recorded as outside every listed property (no check claims it)"; continue; fi
   out=$(./eval_seeded.sh $id $prop 2>&1)
   echo "$out" | cut -c1-200
   echo "$out" | grep -q "rc=1" || { echo "NOT CAUGHT: $id by $prop"; rc=1; }
